@@ -23,13 +23,13 @@ CHECKS = {
          "DESIGN.md section 5 (C15)"),
  "C16": ("model_checking",
          "explicit-state BFS (stateright), three slices over the documented device, every transition a real Node::run compared with an IEEE 488.2 section 11 reference model",
-         "S1: all reachable (ESR, ESE, SRE, queue, self-test) states under *ESE/*SRE values covering every bit and several multi-bit masks, *ESR?, *STB? with MAV both ways, *CLS, *OPC, *OPC?, *TST?, *RST, *WAI, a failing message per ESR class, SYST:ERR? and multi-unit combinations. S2: OPER and QUES summary bits against SRE and *STB?. S3: every value 0..255 plus out-of-range, rounded and mistyped values written to *ESE and *SRE and read back. Response, return value and every device register are compared after each message. S2 lets the OPER register range over the subsets of {bit 0, bit 15}.",
+         "S1: all reachable (ESR, ESE, SRE, queue, self-test) states under *ESE/*SRE values covering every bit and several multi-bit masks, *ESR?, *STB? with MAV both ways, *CLS, *OPC, *OPC?, *TST?, *RST, *WAI, a failing message per ESR class, SYST:ERR? and multi-unit combinations. S2: OPER and QUES summary bits against SRE and *STB?. S3: every value 0..255 plus out-of-range, rounded and mistyped values written to *ESE and *SRE and read back. S4: error queue, QUES summary, OPER summary, ESB and MAV in every combination against seven *SRE masks. Response, return value and every device register are compared after each message. S2 lets the OPER register range over the subsets of {bit 0, bit 15}.",
          "Trusted: the reference model of the status byte (summary = event & enable per IEEE 488.2 11.4.3; MSS over all other bits incl. MAV; *CLS clears ESR, event registers and error queue), the binding table, stateright. Queue bound 1-2.",
          "DESIGN.md section 5 (C16)"),
  "C02": ("model_checking",
          "per-tree BFS over the reference resolver's header-level state graph; every (state, unit) transition replayed on the real Node::run (witness;unit) and compared; plus all 2-/3-unit messages and history runs",
          "For every tree of a bounded family (all unambiguous trees up to N nodes over a name pool with suffixed siblings, default leaves/branches, anonymous default leaf, root-only common commands) the reachable header levels and every transition under an alphabet of absolute/relative/common headers in four spellings, event and query form, are enumerated; each transition is validated against the implementation by running the witness message and comparing the handler-invocation log (which handler, which form) and the return value (-113 without invocation). All 2-unit (and, thorough, 3-unit) messages are also run directly, and units are re-run after failing/deep earlier messages. Unit alphabets also contain spellings whose numeric suffix is congruent to a defined one modulo 2^8 / 2^16.",
-         "Trusted: the reference resolver (refmodel/resolver.rs, self-checked against the repo's tree_traversal.csv), the reference mnemonic matcher of C03, the tree-family generator. Trees larger than the bound, more than 3 children per branch and handlers with parameters are outside this check.",
+         "Every tree is built through the library's own Node::leaf / default_leaf / branch / default_branch / root constructors, and one fixed tree additionally through the Leaf! / Branch! / Root! macros (all one- and two-unit messages over a 16-header list). Trusted: the reference resolver (refmodel/resolver.rs, self-checked against the repo's tree_traversal.csv), the reference mnemonic matcher of C03, the tree-family generator. Trees larger than the bound, more than 3 children per branch and handlers with parameters are outside this check.",
          "DESIGN.md section 5 (C02)"),
  "C03": ("exploration",
          "exhaustive enumeration of (definition, candidate) pairs against an independent three-valued matcher",
@@ -38,7 +38,7 @@ CHECKS = {
          "DESIGN.md section 5 (C03)"),
  "C14": ("exploration",
          "exhaustive enumeration of all 65536 error numbers against an independent class table, plus a table of library-raised faults",
-         "Every i16 value through Error::custom / ErrorCode::Custom and, where defined, the standard variant (code round trip, esr_mask, message); ~70 faulty messages (syntax, header, arity, type -> command error; value -> execution error) run on the documented device checking error class and the ESR bit set; non-numeric elements (string, block, expression, non-decimal, character data incl. the special-value mnemonics) offered to 12 quantity / Amplitude / Db types must raise a command error; every parameter fault of a 14-entry table as first, second and third parameter (same class wherever it stands); response-buffer exhaustion at every capacity of 7 messages must raise an execution error; every number of an independently written list of the SCPI-99 21.8 standard error numbers must be known to the lookup and report itself.",
+         "Every i16 value through Error::custom / ErrorCode::Custom and, where defined, the standard variant (code round trip, esr_mask, message); ~75 faulty messages (syntax incl. an expression glued to a header, header, arity, type -> command error; value -> execution error) run on the documented device checking error class and the ESR bit set; non-numeric elements (string, block, expression, non-decimal, character data incl. the special-value mnemonics) offered to 12 quantity / Amplitude / Db types must raise a command error; syntax faults inside numeric and channel lists must be command errors; every parameter fault of a 14-entry table as first, second and third parameter (same class wherever it stands); response-buffer exhaustion at every capacity of 7 messages must raise an execution error; every number of an independently written list of the SCPI-99 21.8 standard error numbers must be known to the lookup and report itself.",
          "Trusted: the class table in scpimodel::esr_bit_of (15 lines from IEEE 488.2 11.5.1 / SCPI-99 21.8.2); the fault table's classification of each message.",
          "DESIGN.md section 5 (C14)"),
  "C05": ("fault_enumeration",
@@ -63,7 +63,7 @@ CHECKS = {
          "DESIGN.md section 5 (C11)"),
  "C04": ("exploration",
          "exhaustive enumeration of all strings up to length n over one byte per lexical class, contextual continuations, grammar derivations and their single-point corruptions, judged by an independent three-valued IEEE 488.2 recogniser",
-         "Every string up to length 5 (quick) / 6 (thorough) over 28 class-representative bytes, every continuation up to length 4/5 behind 13 prefixes that put each data reader at offset 0, ~20k grammar derivations with all white-space placements and ~1M single-point corruptions. Well-formed inputs must be tokenized into exactly the 488.2 elements with exact byte ranges (and, where the headers exist, run successfully with handlers seeing exactly those data elements); inputs in a listed violation class must be refused with a command error by the tokenizer (lexical classes) or by Node::run (structural classes); everything else is not judged. Plus directed families: elements of 32 lengths from 11 to 65549 bytes in every position, and every byte value 0..255 at every position of 8 well-formed messages.",
+         "Every string up to length 5 (quick) / 6 (thorough) over 28 class-representative bytes, every continuation up to length 4/5 behind 13 prefixes that put each data reader at offset 0, ~20k grammar derivations with all white-space placements and ~1M single-point corruptions. Well-formed inputs must be tokenized into exactly the 488.2 elements with exact byte ranges (and, where the headers exist, run successfully with handlers seeing exactly those data elements); inputs in a listed violation class must be refused with a command error by the tokenizer (lexical classes) or by Node::run (structural classes); everything else is not judged. Plus directed families: elements of 32 lengths from 11 to 65549 bytes in every position, every byte value 0..255 at every position of 8 well-formed messages, and everything `#` can introduce (every digit character behind every radix letter, block length fields of every width 1..9, `#` followed by any other letter).",
          "Trusted: refmodel/lex488.rs (~450 lines from 488.2 7.3-7.7, self-checked on accept/reject/unspecified tables). White space representatives SP/TAB; inputs the standard or the property leave open are classified unspecified (counted in the evidence).",
          "DESIGN.md section 5 (C04)"),
  "C01": ("exploration",
